@@ -226,6 +226,23 @@ impl Obs for &Plain {
     }
 }
 
+/// Element that is not `Clone` (kind `SliceNoClone`, C19).
+pub struct NoClone {
+    pub id: u32,
+    pub payload: u64,
+}
+
+impl Obs for &NoClone {
+    fn obs(&self) -> ItemObs {
+        ItemObs {
+            raw: self.id as u64,
+            payload: self.payload,
+            addr: *self as *const NoClone as usize,
+            gen: 0,
+        }
+    }
+}
+
 /// Zero-sized element with a destructor (kinds `VecZst`, `ArrayZst`; added after the seeded
 /// changes C03-r2 / C10-r2 / C15-r2, which all broke zero-sized elements only). It has no identity:
 /// the harness labels it with the index the crate reports and the ledger only counts destructor runs.
